@@ -28,6 +28,19 @@ structure IterSpec (it : Iter) : Prop where
   next_sorted : ∀ n, (it.next n).Pairwise (· < ·)
   next_mem : ∀ n L, (it.next n).getLast? = some L → ∀ q, q ∈ it.next n ↔ q.Prime ∧ n ≤ q ∧ q ≤ L
 
+/-- the same contract for positions `≤ N` only (what an iterator over a finite prime table can promise) -/
+structure IterSpecTo (it : Iter) (N : ℕ) : Prop where
+  prev_le : ∀ n, n ≤ N → it.prev n ≤ n
+  prev_prime : ∀ n, n ≤ N → it.prev n ≠ 0 → (it.prev n).Prime
+  prev_max : ∀ n, n ≤ N → ∀ q, q.Prime → q ≤ n → q ≤ it.prev n
+  next_ne : ∀ n, n ≤ N → it.next n ≠ []
+  next_sorted : ∀ n, n ≤ N → (it.next n).Pairwise (· < ·)
+  next_mem : ∀ n, n ≤ N → ∀ L, (it.next n).getLast? = some L → ∀ q, q ∈ it.next n ↔ q.Prime ∧ n ≤ q ∧ q ≤ L
+
+theorem IterSpec.to {it : Iter} (h : IterSpec it) (N : ℕ) : IterSpecTo it N :=
+  ⟨fun n _ => h.prev_le n, fun n _ => h.prev_prime n, fun n _ => h.prev_max n, fun n _ => h.next_ne n,
+   fun n _ => h.next_sorted n, fun n _ => h.next_mem n⟩
+
 /-- state of `it2` when every prime `≤ m` has been counted: the unread part `primes_[i_ .. size_)` is not empty
     and lists exactly the primes in `(m, primes_[size_-1]]`, increasing -/
 structure FwdInv (s : Fwd) (m : ℕ) : Prop where
@@ -62,7 +75,7 @@ theorem FwdInv.lt_last {s : Fwd} {m L : ℕ} (h : FwdInv s m) (hL : s.buf.getLas
   omega
 
 /-- P2.cpp:73-74 -/
-theorem loop1_spec {it : Iter} (hit : IterSpec it) (xp : ℕ) :
+theorem loop1_spec {it : Iter} {N : ℕ} (hit : IterSpecTo it N) (xp : ℕ) (hN : xp + 1 ≤ N) :
     ∀ fuel s m, FwdInv s m → m ≤ xp → xp + 2 ≤ fuel + m →
       ∃ s' m', loop1 it xp fuel s (π m) = .ok (s', π m') ∧ FwdInv s' m' ∧ m ≤ m' ∧ m' ≤ xp ∧
         ∀ L, s'.buf.getLast? = some L → xp < L := by
@@ -81,11 +94,11 @@ theorem loop1_spec {it : Iter} (hit : IterSpec it) (xp : ℕ) :
         omega
       have hinv' : FwdInv ⟨it.next (L + 1), 0⟩ L := by
         refine ⟨?_, ?_, ?_⟩
-        · exact List.length_pos_of_ne_nil (hit.next_ne _)
-        · simpa using hit.next_sorted (L + 1)
+        · exact List.length_pos_of_ne_nil (hit.next_ne _ (by omega))
+        · simpa using hit.next_sorted (L + 1) (by omega)
         · intro L' hL' q
           simp only [List.drop_zero]
-          rw [hit.next_mem (L + 1) L' hL' q]
+          rw [hit.next_mem (L + 1) (by omega) L' hL' q]
           constructor
           · rintro ⟨h1, h2, h3⟩; exact ⟨h1, by omega, h3⟩
           · rintro ⟨h1, h2, h3⟩; exact ⟨h1, by omega, h3⟩
@@ -166,10 +179,11 @@ theorem loop2_spec (xp : ℕ) :
       · intro q' hq'; have := Option.some.inj (hget.symm.trans hq'); omega
 
 /-- both inner loops: from "every prime `≤ m` counted" to "every prime `≤ xp` counted" -/
-theorem advance_spec {it : Iter} (hit : IterSpec it) {s : Fwd} {m xp : ℕ} (hinv : FwdInv s m) (hm : m ≤ xp) :
+theorem advance_spec {it : Iter} {N : ℕ} (hit : IterSpecTo it N) {s : Fwd} {m xp : ℕ} (hN : xp + 1 ≤ N)
+    (hinv : FwdInv s m) (hm : m ≤ xp) :
     ∃ s1 c1 s2, loop1 it xp (xp + 2) s (π m) = .ok (s1, c1) ∧
       loop2 xp (s1.buf.length + 1) s1 c1 = .ok (s2, π xp) ∧ FwdInv s2 xp := by
-  obtain ⟨s1, m1, h1, hinv1, hm1, hm1', hlast1⟩ := loop1_spec hit xp (xp + 2) s m hinv hm (by omega)
+  obtain ⟨s1, m1, h1, hinv1, hm1, hm1', hlast1⟩ := loop1_spec hit xp hN (xp + 2) s m hinv hm (by omega)
   obtain ⟨s2, m2, h2, hinv2, hm2, hm2', hbuf, hhead⟩ :=
     loop2_spec xp (s1.buf.length + 1) s1 m1 hinv1 hm1' hlast1 (by omega)
   obtain ⟨L, hL⟩ := hinv2.last_exists
@@ -206,11 +220,11 @@ theorem advance_spec {it : Iter} (hit : IterSpec it) {s : Fwd} {m xp : ℕ} (hin
 
 /-- one step of the backward iterator: the primes of `(start, n]` are `P` (the largest) and those of
     `(start, prev (P - 1)]` -/
-theorem filter_Ioc_prev {it : Iter} (hit : IterSpec it) {start n P : ℕ} (hP : P.Prime) (h1 : start < P) (h2 : P ≤ n)
-    (hmax : ∀ q, q.Prime → q ≤ n → q ≤ P) :
+theorem filter_Ioc_prev {it : Iter} {N : ℕ} (hit : IterSpecTo it N) {start n P : ℕ} (hP : P.Prime) (h1 : start < P)
+    (h2 : P ≤ n) (hPN : P ≤ N + 1) (hmax : ∀ q, q.Prime → q ≤ n → q ≤ P) :
     (Ioc start n).filter Nat.Prime = insert P ((Ioc start (it.prev (P - 1))).filter Nat.Prime) ∧
       P ∉ (Ioc start (it.prev (P - 1))).filter Nat.Prime := by
-  have hle := hit.prev_le (P - 1)
+  have hle := hit.prev_le (P - 1) (by omega)
   have hpos := hP.pos
   constructor
   · ext q
@@ -221,7 +235,7 @@ theorem filter_Ioc_prev {it : Iter} (hit : IterSpec it) {start n P : ℕ} (hP : 
       · exact Or.inl hqP
       · right
         have := hmax q hq hb
-        exact ⟨⟨ha, hit.prev_max (P - 1) q hq (by omega)⟩, hq⟩
+        exact ⟨⟨ha, hit.prev_max (P - 1) (by omega) q hq (by omega)⟩, hq⟩
     · rintro (rfl | ⟨⟨ha, hb⟩, hq⟩)
       · exact ⟨⟨h1, h2⟩, hP⟩
       · exact ⟨⟨ha, by omega⟩, hq⟩
@@ -229,24 +243,27 @@ theorem filter_Ioc_prev {it : Iter} (hit : IterSpec it) {start n P : ℕ} (hP : 
     intro h; omega
 
 /-- P2.cpp:69-79 -/
-theorem outer_spec {it : Iter} (hit : IterSpec it) (x start : ℕ) :
-    ∀ fuel prime s m sum, (prime ≠ 0 → prime.Prime) → FwdInv s m → (start < prime → m ≤ x / prime) →
+theorem outer_spec {it : Iter} {N : ℕ} (hit : IterSpecTo it N) (x start : ℕ) (hN : x / (start + 1) + 1 ≤ N) :
+    ∀ fuel prime s m sum, (prime ≠ 0 → prime.Prime) → prime ≤ N + 1 → FwdInv s m → (start < prime → m ≤ x / prime) →
       prime < fuel + start → 0 < fuel →
       outer it x start fuel prime s (π m) sum =
         .ok (sum + ∑ q ∈ (Ioc start prime).filter Nat.Prime, π (x / q)) := by
   intro fuel
   induction fuel with
-  | zero => intro _ _ _ _ _ _ _ _ h; omega
+  | zero => intro _ _ _ _ _ _ _ _ _ h; omega
   | succ fuel ih =>
-    intro prime s m sum hp hinv hm hf _
+    intro prime s m sum hp hpN hinv hm hf _
     by_cases hlt : start < prime
     · have hP : prime.Prime := hp (by omega)
-      obtain ⟨s1, c1, s2, e1, e2, hinv2⟩ := advance_spec hit hinv (hm hlt)
-      obtain ⟨hset, hnot⟩ := filter_Ioc_prev hit hP hlt (Nat.le_refl _) (fun q _ h => h)
-      have hle := hit.prev_le (prime - 1)
+      have hxpN : x / prime + 1 ≤ N := by
+        have : x / prime ≤ x / (start + 1) := Nat.div_le_div_left (by omega) (by omega)
+        omega
+      obtain ⟨s1, c1, s2, e1, e2, hinv2⟩ := advance_spec hit hxpN hinv (hm hlt)
+      obtain ⟨hset, hnot⟩ := filter_Ioc_prev hit hP hlt (Nat.le_refl _) hpN (fun q _ h => h)
+      have hle := hit.prev_le (prime - 1) (by omega)
       have hpos := hP.pos
-      have hrec := ih (it.prev (prime - 1)) s2 (x / prime) (sum + π (x / prime)) (hit.prev_prime _) hinv2
-        (fun h => Nat.div_le_div_left (by omega) (by omega)) (by omega) (by omega)
+      have hrec := ih (it.prev (prime - 1)) s2 (x / prime) (sum + π (x / prime)) (hit.prev_prime _ (by omega)) (by omega)
+        hinv2 (fun h => Nat.div_le_div_left (by omega) (by omega)) (by omega) (by omega)
       rw [outer]
       simp only [if_pos hlt, e1, e2]
       rw [hrec, hset, Finset.sum_insert hnot, Nat.add_assoc]
@@ -255,10 +272,12 @@ theorem outer_spec {it : Iter} (hit : IterSpec it) (x start : ℕ) :
       rw [Finset.Ioc_eq_empty (by omega)]
       simp
 
-/-- **`P2_thread(x, y, low, high)` is the sum of `π(x / q)` over the primes `start < q ≤ stop`** — for every
-    iterator that meets the contract (any batch sizes), with `pi_noprint` only trusted below `x` -/
-theorem p2Thread_eq {it : Iter} (hit : IterSpec it) {pi : ℕ → ℕ} {x : ℕ} (hpi : ∀ n, n < x → pi n = π n)
-    (y : ℕ) {low high : ℕ} (hlow : 0 < low) (hlh : low < high) :
+/-- `P2_thread` over an iterator that meets the contract up to `N` and a `pi_noprint` that is right up to `N`,
+    when `N` covers `stop` and `⌊x / (start + 1)⌋ + 1` (the largest position the forward iterator is asked for) -/
+theorem p2Thread_eq_to {it : Iter} {N : ℕ} (hit : IterSpecTo it N) {pi : ℕ → ℕ} {x : ℕ}
+    (hpi : ∀ n, n ≤ N → n < x → pi n = π n)
+    (y : ℕ) {low high : ℕ} (hlow : 0 < low) (hlh : low < high)
+    (hN1 : thrStop x low ≤ N) (hN2 : x / (thrStart x y high + 1) + 1 ≤ N) :
     p2Thread it pi x y low high =
       .ok (∑ q ∈ (Ioc (thrStart x y high) (thrStop x low)).filter Nat.Prime, π (x / q)) := by
   unfold p2Thread
@@ -272,14 +291,14 @@ theorem p2Thread_eq {it : Iter} (hit : IterSpec it) {pi : ℕ → ℕ} {x : ℕ}
       rw [Finset.filter_eq_empty_iff]
       intro q hq hqp
       rw [mem_Ioc] at hq
-      have := hit.prev_max stop q hqp hq.2
+      have := hit.prev_max stop hN1 q hqp hq.2
       omega
     rw [this]; simp
   · rw [if_neg hle]
     have hlt : start < it.prev stop := by omega
-    have hP : (it.prev stop).Prime := hit.prev_prime stop (by omega)
-    have hle' := hit.prev_le stop
-    obtain ⟨hset, hnot⟩ := filter_Ioc_prev hit hP hlt hle' (fun q hq h => hit.prev_max stop q hq h)
+    have hP : (it.prev stop).Prime := hit.prev_prime stop hN1 (by omega)
+    have hle' := hit.prev_le stop hN1
+    obtain ⟨hset, hnot⟩ := filter_Ioc_prev hit hP hlt hle' (by omega) (fun q hq h => hit.prev_max stop hN1 q hq h)
     have hx : 0 < x := by
       by_contra hx
       have hx0 : x = 0 := by omega
@@ -288,19 +307,32 @@ theorem p2Thread_eq {it : Iter} (hit : IterSpec it) {pi : ℕ → ℕ} {x : ℕ}
         unfold thrStop; rw [hx0]; simp
       omega
     have hxp : x / it.prev stop < x := Nat.div_lt_self hx hP.one_lt
-    rw [hpi _ hxp]
+    have hxpN : x / it.prev stop + 1 ≤ N := by
+      have : x / it.prev stop ≤ x / (start + 1) := Nat.div_le_div_left (by omega) (by omega)
+      omega
+    rw [hpi _ (by omega) hxp]
     have hinv0 : FwdInv ⟨it.next (x / it.prev stop + 1), 0⟩ (x / it.prev stop) := by
-      refine ⟨List.length_pos_of_ne_nil (hit.next_ne _), by simpa using hit.next_sorted _, ?_⟩
+      refine ⟨List.length_pos_of_ne_nil (hit.next_ne _ hxpN), by simpa using hit.next_sorted _ hxpN, ?_⟩
       intro L' hL' q
       simp only [List.drop_zero]
-      rw [hit.next_mem _ L' hL' q]
+      rw [hit.next_mem _ hxpN L' hL' q]
       constructor
       · rintro ⟨h1, h2, h3⟩; exact ⟨h1, by omega, h3⟩
       · rintro ⟨h1, h2, h3⟩; exact ⟨h1, by omega, h3⟩
-    have hle2 := hit.prev_le (it.prev stop - 1)
+    have hle2 := hit.prev_le (it.prev stop - 1) (by omega)
     have hpos := hP.pos
-    rw [outer_spec hit x start (stop + 1) (it.prev (it.prev stop - 1)) _ (x / it.prev stop) _ (hit.prev_prime _) hinv0
+    rw [outer_spec hit x start hN2 (stop + 1) (it.prev (it.prev stop - 1)) _ (x / it.prev stop) _
+      (hit.prev_prime _ (by omega)) (by omega) hinv0
       (fun h => Nat.div_le_div_left (by omega) (by omega)) (by omega) (by omega)]
     rw [hset, Finset.sum_insert hnot]
+
+/-- **`P2_thread(x, y, low, high)` is the sum of `π(x / q)` over the primes `start < q ≤ stop`** — for every
+    iterator that meets the contract (any batch sizes), with `pi_noprint` only trusted below `x` -/
+theorem p2Thread_eq {it : Iter} (hit : IterSpec it) {pi : ℕ → ℕ} {x : ℕ} (hpi : ∀ n, n < x → pi n = π n)
+    (y : ℕ) {low high : ℕ} (hlow : 0 < low) (hlh : low < high) :
+    p2Thread it pi x y low high =
+      .ok (∑ q ∈ (Ioc (thrStart x y high) (thrStop x low)).filter Nat.Prime, π (x / q)) :=
+  p2Thread_eq_to (hit.to (thrStop x low + (x / (thrStart x y high + 1) + 1))) (fun n _ h => hpi n h) y hlow hlh
+    (Nat.le_add_right _ _) (Nat.le_add_left _ _)
 
 end Pc.P2L
